@@ -47,18 +47,25 @@ pub struct Env {
   exe: PathBuf,
   pub cwd: PathBuf,
   http: reqwest::blocking::Client,
+  pub chain: &'static str,
+  pub network: bitcoin::Network,
 }
 
 impl Env {
   pub fn new(tag: &str, index_sats: bool) -> anyhow::Result<Env> {
-    let core = mockcore::builder().network(bitcoin::Network::Regtest).build();
+    Self::new_on(tag, index_sats, "regtest")
+  }
+
+  pub fn new_on(tag: &str, index_sats: bool, chain: &'static str) -> anyhow::Result<Env> {
+    let network = if chain == "mainnet" { bitcoin::Network::Bitcoin } else { bitcoin::Network::Regtest };
+    let core = mockcore::builder().network(network).build();
     let scratch = Scratch::new(&format!("wallet-{tag}"));
     let srv_dir = scratch.sub("server");
     let cwd = scratch.sub("cli");
     let cookie = srv_dir.join("cookie");
     std::fs::write(&cookie, "username:password")?;
     let args = format!(
-      "ord --chain regtest --bitcoin-rpc-url {} --cookie-file {} --bitcoin-data-dir {} --datadir {} --index-cache-size 33554432 --index-runes {} server --http-port 0 --address 127.0.0.1 --polling-interval 100ms",
+      "ord --chain {chain} --bitcoin-rpc-url {} --cookie-file {} --bitcoin-data-dir {} --datadir {} --index-cache-size 33554432 --index-runes {} server --http-port 0 --address 127.0.0.1 --polling-interval 100ms",
       core.url(),
       cookie.display(),
       srv_dir.display(),
@@ -84,6 +91,8 @@ impl Env {
       exe: std::env::current_exe()?,
       cwd,
       http: reqwest::blocking::Client::builder().no_proxy().timeout(Duration::from_secs(30)).build()?,
+      chain,
+      network,
     })
   }
 
@@ -94,7 +103,7 @@ impl Env {
       "--ord-cli".into(),
       "ord".into(),
       "--chain".into(),
-      "regtest".into(),
+      self.chain.into(),
       "--bitcoin-rpc-url".into(),
       self.core.url(),
       "--cookie-file".into(),
@@ -198,7 +207,7 @@ impl Env {
   }
 
   pub fn is_wallet_script(&self, script: &ScriptBuf) -> bool {
-    match Address::from_script(script, bitcoin::Network::Regtest) {
+    match Address::from_script(script, self.network) {
       Ok(a) => self.core.state().is_wallet_address(&a),
       Err(_) => false,
     }
